@@ -7,6 +7,7 @@ import (
 	"testing"
 	"time"
 
+	"cosmossdk.io/math"
 	cometabci "github.com/cometbft/cometbft/abci/types"
 	cmtproto "github.com/cometbft/cometbft/proto/tendermint/types"
 	cryptocodec "github.com/cosmos/cosmos-sdk/crypto/codec"
@@ -345,6 +346,84 @@ func FuzzC15Commit(f *testing.F) {
 		perPair, total, values := w.honestPower(eci.Votes, 6, eci.Round)
 		if _, err := w.safety(before, after, r, w.exec.Str, perPair, total, values, 6); err != nil {
 			t.Fatalf("C15 violated: %v\ncommit %x", err, raw)
+		}
+	})
+}
+
+// FuzzC07Deposit: the fuzzer owns the bytes of the L1 message (MsgInitiateTokenDeposit: recipient
+// string, coin, hook data; sender and bridge id are fixed to a funded user and the real bridge).
+// Whatever L1 accepts is relayed as the executor would relay it and must end on L2 in outcome A or
+// B, and the bridge must stay live (same judge as TestC07Rapid, expectation "either").
+func FuzzC07Deposit(f *testing.F) {
+	mk := func() *twoChain {
+		tc := newTwoChain(tcOpts{nExecutors: 1, fault: true})
+		for _, u := range tc.users {
+			tc.l2.Fund(u.Addr, coinOf("stake", 1000))
+		}
+		return tc
+	}
+	{
+		tc := mk()
+		signer := tc.users[1]
+		num, seq := accInfo(tc.l2, signer)
+		l2d := tcL2Denom(tc, "uinit")
+		enc := func(to string, coin sdk.Coin, data []byte) []byte {
+			bz, err := tc.l1.Enc.Marshaler.Marshal(ophosttypes.NewMsgInitiateTokenDeposit(tc.users[0].Str, tc.bridgeID, to, coin, data))
+			if err != nil {
+				panic(err)
+			}
+			return bz
+		}
+		hook := signTx(tc.l2, []sdk.Msg{banktypes.NewMsgSend(signer.Addr, tc.users[2].Addr, sdk.NewCoins(coinOf(l2d, 1)))}, []cryptotypes.PrivKey{signer.Priv}, []uint64{num}, []uint64{seq}, henv.L2ChainID)
+		f.Add(enc(signer.Str, coinOf("uinit", 1000), nil))
+		f.Add(enc(signer.Str, coinOf("uinit", 1000), hook))
+		f.Add(enc(signer.Str, coinOf("uinit", 0), hook))
+		f.Add(enc("not an address", coinOf("uinit", 5), nil))
+		f.Add(enc(signer.Str, coinOf("uusdc", 7), []byte{0xff}))
+	}
+	f.Fuzz(func(t *testing.T, raw []byte) {
+		if len(raw) > 4000 {
+			return
+		}
+		tc := mk()
+		var m ophosttypes.MsgInitiateTokenDeposit
+		if err := tc.l1.Enc.Marshaler.Unmarshal(raw, &m); err != nil {
+			return
+		}
+		m.Sender, m.BridgeId = tc.users[0].Str, tc.bridgeID
+		if m.Amount.Amount.IsNil() || !m.Amount.IsValid() {
+			return
+		}
+		// the depositor owns what it deposits
+		if m.Amount.IsPositive() {
+			if !m.Amount.Amount.IsUint64() {
+				return
+			}
+			tc.l1.Fund(tc.users[0].Addr, m.Amount)
+		}
+		r := tc.l1.Deliver(&m)
+		if !r.OK() {
+			return
+		}
+		evs := henv.EventAttrs(r.Events, ophosttypes.EventTypeInitiateTokenDeposit)
+		if len(evs) != 1 {
+			t.Fatalf("C07 violated: an accepted L1 deposit emitted %d deposit events\nmessage %x", len(evs), raw)
+		}
+		p := parseDepositEvent(evs[0], uint64(tc.l1.Ctx.BlockHeight()))
+		var toAddr sdk.AccAddress
+		if a, err := sdk.AccAddressFromBech32(p.To); err == nil {
+			toAddr = a
+		}
+		cs := &c07Case{tc: tc, msg: relayMsg(tc.executors[0].Str, p), toClass: "fuzz", toAddr: toAddr, signer: tc.users[1], payload: "multi-signer", expect: "either",
+			hookMaxGas: opchildtypes.DefaultHookMaxGas, desc: fmt.Sprintf("fuzz deposit %x", raw), sent: map[string]math.Int{}, withdrawn: math.ZeroInt()}
+		pre := cs.snap(tc.l2)
+		tc.l2.Fault.Reset(0, false)
+		res := tc.l2.DeliverWithGas(cs.msg, c07HandlerGas+cs.hookMaxGas)
+		if _, err := cs.judge(tc.l2, pre, res, false); err != nil {
+			t.Fatalf("C07 violated: %v\nL1 message %x", err, raw)
+		}
+		if err := cs.liveness(tc.l2); err != nil {
+			t.Fatalf("C07 violated (bridge blocked): %v\nL1 message %x", err, raw)
 		}
 	})
 }
